@@ -668,25 +668,27 @@ class Parser:
 
     # Terms ------------------------------------------------------------------------
     def parse_postfix(self):
-        t = self.parse_primary()
+        return self.parse_suffixes(self.parse_primary(), True)
+
+    def parse_suffixes(self, t, allow_as):
         while True:
             tk = self.peek()
             if tk.t == "field":
                 self.next()
-                t = ("index", t, ("lit", tk.v))
+                t = self.opt(("index", t, ("lit", tk.v)))
             elif tk.t == "op" and tk.v == "." and self.toks[self.i + 1].t == "str":
                 self.next()
                 s = self.parse_string_token(None)
-                t = ("index", t, s)
+                t = self.opt(("index", t, s))
             elif tk.t == "op" and tk.v == "." and self.toks[self.i + 1].t == "op" and self.toks[self.i + 1].v == "[":
                 self.next()
                 continue
             elif tk.t == "op" and tk.v == "[":
-                t = self.parse_bracket_suffix(t)
+                t = self.opt(self.parse_bracket_suffix(t))
             elif tk.t == "op" and tk.v == "?":
                 self.next()
                 t = ("try", t, None)
-            elif tk.t == "kw" and tk.v == "as":
+            elif allow_as and tk.t == "kw" and tk.v == "as":
                 self.next()
                 pats = self.parse_patterns()
                 self.expect_op("|")
@@ -694,6 +696,13 @@ class Parser:
                 return ("as", t, pats, body)
             else:
                 return t
+
+    def opt(self, node):
+        """`Term FIELD '?'`, `Term '[' Exp ']' '?'`, `Term '[' ']' '?'`, slices: only that one step is optional."""
+        if self.isop("?"):
+            self.next()
+            return node + (True,)
+        return node + (False,)
 
     def parse_bracket_suffix(self, t):
         self.expect_op("[")
@@ -746,7 +755,7 @@ class Parser:
             return ("format", tk.v)
         if tk.t == "field":
             self.next()
-            return ("index", ("id",), ("lit", tk.v))
+            return self.opt(("index", ("id",), ("lit", tk.v)))
         if tk.t == "binding":
             self.next()
             if tk.v == "__loc__":
@@ -763,9 +772,9 @@ class Parser:
                 nx = self.peek()
                 if nx.t == "str":
                     s = self.parse_string_token(None)
-                    return ("index", ("id",), s)
+                    return self.opt(("index", ("id",), s))
                 if nx.t == "op" and nx.v == "[":
-                    return self.parse_bracket_suffix(("id",))
+                    return self.opt(self.parse_bracket_suffix(("id",)))
                 return ("id",)
             if tk.v == "(":
                 self.next()
@@ -797,7 +806,7 @@ class Parser:
                 if self.iskw("catch"):
                     self.next()
                     handler = self.parse_post_try()
-                return ("try", body, handler if handler is not None else None) if handler is None else ("trycatch", body, handler)
+                return ("try", body, None) if handler is None else ("trycatch", body, handler)
             if tk.v == "reduce":
                 self.next()
                 src = self.parse_postfix_noas()
@@ -857,25 +866,8 @@ class Parser:
         raise ParseError("unexpected token %r" % tk)
 
     def parse_postfix_noas(self):
-        # the Term before `as` in reduce/foreach: a postfix term without the `as` continuation
-        t = self.parse_primary()
-        while True:
-            tk = self.peek()
-            if tk.t == "field":
-                self.next()
-                t = ("index", t, ("lit", tk.v))
-            elif tk.t == "op" and tk.v == "." and self.toks[self.i + 1].t == "str":
-                self.next()
-                t = ("index", t, self.parse_string_token(None))
-            elif tk.t == "op" and tk.v == "." and self.toks[self.i + 1].t == "op" and self.toks[self.i + 1].v == "[":
-                self.next()
-            elif tk.t == "op" and tk.v == "[":
-                t = self.parse_bracket_suffix(t)
-            elif tk.t == "op" and tk.v == "?":
-                self.next()
-                t = ("try", t, None)
-            else:
-                return t
+        # the Term before `as` in reduce/foreach, try bodies, object values: a postfix term without the `as` continuation
+        return self.parse_suffixes(self.parse_primary(), False)
 
     def parse_post_try(self):
         # body / handler of try: binds tighter than every binary operator ("try"/"catch" have the highest precedence)
@@ -1003,7 +995,7 @@ class Parser:
                     self.next()
                     ents.append((key, self.parse_objval()))
                 else:
-                    ents.append((key, ("index", ("id",), ("lit", k.v))))
+                    ents.append((key, ("index", ("id",), ("lit", k.v), False)))
             elif k.t == "num":
                 raise Unsupported("numeric object key literal")
             elif k.t == "str" or k.t == "format":
@@ -1016,7 +1008,7 @@ class Parser:
                     self.next()
                     ents.append((s, self.parse_objval()))
                 else:
-                    ents.append((s, ("index", ("id",), s)))
+                    ents.append((s, ("index", ("id",), s, False)))
             elif k.t == "op" and k.v == "(":
                 self.next()
                 e = self.parse_pipe()
@@ -1050,3 +1042,1804 @@ class Parser:
 
 def parse(src):
     return Parser(src).parse_program()
+
+
+# =================================================================================== evaluator ==
+
+def trunc_dump(v, bufsize=15):
+    """jv_dump_string_trunc: byte-wise truncation to bufsize-1 bytes, last three replaced by '...'."""
+    b = utf8(dump(v))
+    if len(b) > bufsize - 1:
+        b = b[:bufsize - 4] + b"..."
+    try:
+        return b.decode("utf-8")
+    except UnicodeDecodeError:
+        # jq emits a split multi-byte character here; limitations.md documents that succinctly cannot
+        raise Unsupported("DIVERGENCE:trunc-multibyte")
+
+
+def kind_name(v):
+    return kind(v)
+
+
+def err(msg):
+    return JqError(msg)
+
+
+def type_error(v, msg):
+    return JqError("%s (%s) %s" % (kind(v), trunc_dump(v), msg))
+
+
+def type_error2(a, b, msg):
+    return JqError("%s (%s) and %s (%s) %s" % (kind(a), trunc_dump(a), kind(b), trunc_dump(b), msg))
+
+
+def truthy(v):
+    return not (v is None or v is False)
+
+
+def is_int_valued(x):
+    return x == x and x not in (math.inf, -math.inf) and x == math.floor(x)
+
+
+class PathState:
+    __slots__ = ("path", "vap", "tok", "nest")
+
+    def __init__(self):
+        self.path = None   # None: not tracking; tuple: components so far
+        self.vap = None
+        self.tok = None
+        self.nest = 0
+
+    def snap(self):
+        return (self.path, self.vap, self.tok, self.nest)
+
+    def restore(self, s):
+        self.path, self.vap, self.tok, self.nest = s
+
+
+class Closure:
+    __slots__ = ("params", "body", "env", "name")
+
+    def __init__(self, name, params, body, env):
+        self.name, self.params, self.body, self.env = name, params, body, env
+
+
+class ParamClosure:
+    __slots__ = ("ast", "env")
+
+    def __init__(self, ast, env):
+        self.ast, self.env = ast, env
+
+
+class Env:
+    """Persistent environment: linked variables and functions."""
+    __slots__ = ("vars", "funcs")
+
+    def __init__(self, vars_=None, funcs=None):
+        self.vars, self.funcs = vars_, funcs
+
+    def bind_var(self, name, val, tok=None):
+        return Env((name, (val, tok), self.vars), self.funcs)
+
+    def bind_func(self, key, clo):
+        return Env(self.vars, (key, clo, self.funcs))
+
+    def var(self, name):
+        n = self.vars
+        while n is not None:
+            if n[0] == name:
+                return n[1]
+            n = n[2]
+        raise ParseError("$%s is not defined" % name)
+
+    def func(self, key):
+        n = self.funcs
+        while n is not None:
+            if n[0] == key:
+                return n[1]
+            n = n[2]
+        return None
+
+
+class Budget(Exception):
+    pass
+
+
+class Interp(Model):
+    def __init__(self, compat16=False, budget=400000):
+        Model.__init__(self, compat16)
+        self.st = PathState()
+        self.budget0 = budget
+        self.steps = 0
+        self.label_counter = 0
+        self.flag_div = True     # raise Unsupported("DIVERGENCE:<key>") on constructs limitations.md lists (off while binding)
+        self.natives = make_natives(self)
+        self.builtin_env = None
+        self.builtin_env = self._load_builtins()
+
+    # ---- public API --------------------------------------------------------------------------
+    def run(self, ast, inp, named=None, emit=None):
+        """Run a parsed program on one input. Returns (outputs list, error value or NOERR)."""
+        self.st = PathState()
+        self.steps = 0
+        outs = []
+        env = self.builtin_env
+        for n, val in (named or {}).items():
+            env = env.bind_var(n, val)
+
+        def k(v, tok):
+            check_output(v)
+            outs.append(v)
+        try:
+            self.ev(ast, env, inp, None, k)
+        except JqError as e:
+            return outs, e.value
+        except _Wrapped as w:
+            return outs, w.err.value
+        except RecursionError:
+            raise Unsupported("recursion too deep for the model")
+        except Budget:
+            raise Unsupported("evaluation budget exceeded")
+        return outs, NOERR
+
+    # ---- builtins written in jq ----------------------------------------------------------------
+    def _load_builtins(self):
+        env = Env()
+        text = BUILTINS_JQ + (BUILTINS_JQ_16 if self.c16 else BUILTINS_JQ_171)
+        p = Parser(text + " .")
+        ast = p.parse_program()
+        while ast[0] == "def":
+            _, name, params, body, rest = ast
+            clo = Closure(name, params, body, None)
+            env = env.bind_func((name, len(params)), clo)
+            clo.env = env
+            ast = rest
+        return env
+
+    # ---- helpers -----------------------------------------------------------------------------------
+    def tracking(self):
+        st = self.st
+        return st.path is not None and st.nest == 0
+
+    def intact(self, v, tok):
+        st = self.st
+        if st.path is None or st.nest:
+            return True
+        if tok is not None and tok is st.tok:
+            return True
+        if tok is FRESH and not (v is None or v is True or v is False or isinstance(v, float)):
+            return False
+        if self.strict_equal(v, st.vap):
+            if v is None or v is True or v is False:
+                return True
+            raise Unsupported("path identity of equal values is not modelled")
+        return False
+
+    def strict_equal(self, a, b):
+        try:
+            return self.cmp(a, b) == 0 and not (isinstance(a, float) and a != a)
+        except Unsupported:
+            return False
+
+    def subexp(self, ast, env, v, tok, k):
+        st = self.st
+        st.nest += 1
+        saved = st.nest
+
+        def k2(o, t):
+            st.nest = saved - 1
+            try:
+                k(o, t)
+            finally:
+                st.nest = saved
+        try:
+            self.ev(ast, env, v, tok, k2)
+        finally:
+            st.nest = saved - 1
+
+    def path_step(self, key, val, k):
+        """Emit `val` reached from the current tracked value through `key` (path_append + push)."""
+        st = self.st
+        if st.path is None or st.nest:
+            k(val, None)
+            return
+        s = st.snap()
+        tok = object()
+        st.path = st.path + (key,) if not isinstance(key, list) else st.path + tuple(key)
+        st.vap = val
+        st.tok = tok
+        try:
+            k(val, tok)
+        finally:
+            st.restore(s)
+
+    # ---- the evaluator -----------------------------------------------------------------------------
+    def ev(self, ast, env, v, tok, k):
+        self.steps += 1
+        if self.steps > self.budget0:
+            raise Budget()
+        getattr(self, "ev_" + ast[0])(ast, env, v, tok, k)
+
+    def ev_id(self, ast, env, v, tok, k):
+        k(v, tok)
+
+    def ev_paren(self, ast, env, v, tok, k):
+        self.ev(ast[1], env, v, tok, k)
+
+    def ev_lit(self, ast, env, v, tok, k):
+        k(ast[1], FRESH if isinstance(ast[1], str) else None)
+
+    def ev_var(self, ast, env, v, tok, k):
+        val, t = env.var(ast[1])
+        k(val, t)
+
+    def ev_pipe(self, ast, env, v, tok, k):
+        b = ast[2]
+        self.ev(ast[1], env, v, tok, lambda o, t: self.ev(b, env, o, t, k))
+
+    def ev_comma(self, ast, env, v, tok, k):
+        self.ev(ast[1], env, v, tok, k)
+        self.ev(ast[2], env, v, tok, k)
+
+    def ev_neg(self, ast, env, v, tok, k):
+        def kk(o, t):
+            if kind(o) != "number":
+                raise type_error(o, "cannot be negated")
+            k(-o, None)
+        self.ev(ast[1], env, v, tok, kk)
+
+    def ev_binop(self, ast, env, v, tok, k):
+        op, a, b = ast[1], ast[2], ast[3]
+        f = self.natives["binop"]
+
+        def kb(bv, _):
+            self.subexp(a, env, v, tok, lambda av, _t: k(f(op, av, bv), None))
+        self.subexp(b, env, v, tok, kb)
+
+    def ev_and(self, ast, env, v, tok, k):
+        b = ast[2]
+
+        def ka(av, _):
+            if truthy(av):
+                self.ev(b, env, v, tok, lambda bv, _t: k(truthy(bv), None))
+            else:
+                k(False, None)
+        self.ev(ast[1], env, v, tok, ka)
+
+    def ev_or(self, ast, env, v, tok, k):
+        b = ast[2]
+
+        def ka(av, _):
+            if truthy(av):
+                k(True, None)
+            else:
+                self.ev(b, env, v, tok, lambda bv, _t: k(truthy(bv), None))
+        self.ev(ast[1], env, v, tok, ka)
+
+    def ev_alt(self, ast, env, v, tok, k):
+        found = [False]
+
+        def ka(o, t):
+            if truthy(o):
+                found[0] = True
+                k(o, t)
+        self.ev(ast[1], env, v, tok, ka)
+        if not found[0]:
+            self.ev(ast[2], env, v, tok, k)
+
+    def ev_if(self, ast, env, v, tok, k):
+        _, c, a, b = ast
+        if b is None and self.c16:
+            raise Unsupported("NOCOMPILE16:if without else")
+
+        def kc(cv, _):
+            if truthy(cv):
+                self.ev(a, env, v, tok, k)
+            elif b is None:
+                k(v, tok)
+            else:
+                self.ev(b, env, v, tok, k)
+        self.subexp(c, env, v, tok, kc)
+
+    # try / catch --------------------------------------------------------------------------------
+    def _try(self, run_body, on_error, k):
+        """run_body(k2) evaluates the body; on_error(err) is called when the body raised."""
+        st = self.st
+        saved = st.snap()
+        if self.c16:
+            try:
+                run_body(k)
+                return
+            except JqError as e:
+                st.restore(saved)
+                caught = e
+        else:
+            me = object()
+
+            def k2(o, t):
+                try:
+                    k(o, t)
+                except JqError as e:
+                    raise _Wrapped(e, me)
+            try:
+                run_body(k2)
+                return
+            except JqError as e:
+                st.restore(saved)
+                caught = e
+            except _Wrapped as w:
+                if w.owner is me:
+                    raise w.err
+                raise
+        on_error(caught)
+
+    def ev_try(self, ast, env, v, tok, k):
+        # `f?` and `try f`: every error (including `break`) is swallowed
+        self._try(lambda k2: self.ev(ast[1], env, v, tok, k2), lambda e: None, k)
+
+    def ev_trycatch(self, ast, env, v, tok, k):
+        h = ast[2]
+
+        def on_error(e):
+            if isinstance(e.value, LabelObj) and self.c16:
+                raise e   # 1.6 gen_try_handler re-raises internal errors (break)
+            self.ev(h, env, e.value, None, k)
+        self._try(lambda k2: self.ev(ast[1], env, v, tok, k2), on_error, k)
+
+    def ev_label(self, ast, env, v, tok, k):
+        self.label_counter += 1
+        lab = LabelObj(self.label_counter)
+        env2 = env.bind_var("*label-" + ast[1], lab)
+
+        def on_error(e):
+            if e.value is lab:
+                return
+            raise e
+        self._try(lambda k2: self.ev(ast[2], env2, v, tok, k2), on_error, k)
+
+    def ev_break(self, ast, env, v, tok, k):
+        lab, _ = env.var("*label-" + ast[1])
+        raise JqError(lab)
+
+    # binding / folding -----------------------------------------------------------------------------
+    def bind_pattern(self, pat, env, val, tok, body_env_k):
+        """Destructure `val` by `pat`, call body_env_k(env2) for each binding combination."""
+        if pat[0] == "pvar":
+            body_env_k(env.bind_var(pat[1], val, tok))
+            return
+        if self.tracking():
+            raise Unsupported("destructuring pattern while path tracking")
+        if pat[0] == "parr":
+            def go(i, e):
+                if i == len(pat[1]):
+                    body_env_k(e)
+                    return
+                item = self.natives["index"](val, float(i))
+                self.bind_pattern(pat[1][i], e, item, None, lambda e2: go(i + 1, e2))
+            go(0, env)
+            return
+        if pat[0] == "pobj":
+            def go(i, e):
+                if i == len(pat[1]):
+                    body_env_k(e)
+                    return
+                keyspec, sub = pat[1][i]
+
+                def with_key(kv, e_in):
+                    item = self.natives["index"](val, kv)
+                    if keyspec[0] == "keyvar":
+                        e_in = e_in.bind_var(keyspec[1], item)
+                    if sub is None:
+                        go(i + 1, e_in)
+                    else:
+                        self.bind_pattern(sub, e_in, item, None, lambda e2: go(i + 1, e2))
+                if keyspec[0] == "keyvar":
+                    with_key(keyspec[1], e)
+                elif keyspec[0] == "lit":
+                    with_key(keyspec[1], e)
+                else:
+                    # computed key: evaluated against the value being destructured ... jq evaluates it on `.` of the
+                    # destructuring's input (DUP); outside what the recorded traces pin -> keep literal strings only
+                    def kk(kv, _):
+                        if kind(kv) != "string":
+                            raise err("Cannot use %s (%s) as object key" % (kind(kv), trunc_dump(kv)))
+                        with_key(kv, e)
+                    self.subexp(keyspec, e, val, None, kk)
+            go(0, env)
+            return
+        raise AssertionError(pat)
+
+    def ev_as(self, ast, env, v, tok, k):
+        _, src, pat, body = ast
+        self.subexp(src, env, v, tok,
+                    lambda sv, st_: self.bind_pattern(pat, env, sv, st_, lambda e2: self.ev(body, e2, v, tok, k)))
+
+    def ev_reduce(self, ast, env, v, tok, k):
+        _, src, pat, init, upd = ast
+        st = self.st
+
+        def k_init(iv, itok):
+            res = [iv, itok]
+            snap = st.snap()
+
+            def k_src(x, xtok):
+                def with_env(e2):
+                    cur, ctok = res
+                    res[0], res[1] = None, None
+
+                    def k_body(o, ot):
+                        res[0], res[1] = o, ot
+                    self.ev(upd, e2, cur, ctok, k_body)
+                self.bind_pattern(pat, env, x, xtok, with_env)
+            self.ev(src, env, v, tok, k_src)
+            st.restore(snap)
+            k(res[0], res[1])
+        self.ev(init, env, v, tok, k_init)
+
+    def ev_foreach(self, ast, env, v, tok, k):
+        _, src, pat, init, upd, ext = ast
+
+        def k_init(iv, itok):
+            state = [iv, itok]
+
+            def k_src(x, xtok):
+                def with_env(e2):
+                    cur, ctok = state
+                    state[0], state[1] = None, None
+
+                    def k_upd(o, ot):
+                        state[0], state[1] = o, ot
+                        if ext is None:
+                            k(o, ot)
+                        else:
+                            self.ev(ext, e2, o, ot, k)
+                    self.ev(upd, e2, cur, ctok, k_upd)
+                self.bind_pattern(pat, env, x, xtok, with_env)
+            self.ev(src, env, v, tok, k_src)
+        self.ev(init, env, v, tok, k_init)
+
+    # construction -----------------------------------------------------------------------------------
+    def ev_array(self, ast, env, v, tok, k):
+        acc = []
+        if ast[1] is not None:
+            self.ev(ast[1], env, v, tok, lambda o, _t: acc.append(o))
+        k(acc, FRESH)
+
+    def ev_object(self, ast, env, v, tok, k):
+        ents = ast[1]
+
+        def go(i, obj):
+            if i == len(ents):
+                k(obj, FRESH)
+                return
+            kast, vast = ents[i]
+            if kast[0] != "lit" and self.flag_div:
+                # limitations.md: succinctly refuses a key that yields zero or several outputs (#354) -> excluded by construct
+                ks = []
+                try:
+                    self.subexp(kast, env, v, tok, lambda o, _t: ks.append(o))
+                except JqError:
+                    if ks:
+                        raise Unsupported("DIVERGENCE:object-key-multi")
+                    raise
+                if len(ks) != 1:
+                    raise Unsupported("DIVERGENCE:object-key-multi")
+
+            def with_key(kv, _):
+                def with_val(vv, _t):
+                    if kind(kv) != "string":
+                        if self.c16:
+                            pass
+                        raise err("Cannot use %s (%s) as object key" % (kind(kv), trunc_dump(kv)))
+                    o2 = dict(obj)
+                    o2[kv] = vv
+                    go(i + 1, o2)
+                self.subexp(vast, env, v, tok, with_val)
+            self.subexp(kast, env, v, tok, with_key)
+        go(0, {})
+
+    def ev_str(self, ast, env, v, tok, k):
+        _, fmt, parts = ast
+        fname = fmt or "@text"
+        fmtf = self.natives["format"]
+        # left-nested `+` chain, right operand of each `+` is the outer loop: iterate parts from the last to the first
+        n = len(parts)
+
+        def go(i, suffix):
+            if i < 0:
+                k(suffix, FRESH)
+                return
+            p = parts[i]
+            if isinstance(p, str):
+                go(i - 1, p + suffix)
+            else:
+                self.subexp(p, env, v, tok, lambda o, _t: go(i - 1, fmtf(fname, o) + suffix))
+        go(n - 1, "")
+
+    def ev_format(self, ast, env, v, tok, k):
+        k(self.natives["format"](ast[1], v), None)
+
+    # path steps -------------------------------------------------------------------------------------
+    def ev_index(self, ast, env, v, tok, k):
+        _, t, kx = ast[0], ast[1], ast[2]
+        opt = len(ast) > 3 and ast[3]
+        index = self.natives["index"]
+
+        def with_key(key, _):
+            def with_term(tv, ttok):
+                if not self.intact(tv, ttok):
+                    raise err("Invalid path expression near attempt to access element %s of %s"
+                              % (trunc_dump(key, 15), trunc_dump(tv, 30)))
+                try:
+                    r = index(tv, key)
+                except JqError:
+                    if opt:
+                        return
+                    raise
+                self.path_step(key, r, k)
+            self.ev(t, env, v, tok, with_term)
+        self.subexp(kx, env, v, tok, with_key)
+
+    def ev_slice(self, ast, env, v, tok, k):
+        _, t, lo, hi = ast[0], ast[1], ast[2], ast[3]
+        opt = len(ast) > 4 and ast[4]
+        index = self.natives["index"]
+
+        def with_lo(lov, _):
+            def with_hi(hiv, _t):
+                key = {"start": lov, "end": hiv}
+
+                def with_term(tv, ttok):
+                    if not self.intact(tv, ttok):
+                        raise err("Invalid path expression near attempt to access element %s of %s"
+                                  % (trunc_dump(key, 15), trunc_dump(tv, 30)))
+                    try:
+                        r = index(tv, key)
+                    except JqError:
+                        if opt:
+                            return
+                        raise
+                    self.path_step(key, r, k)
+                self.ev(t, env, v, tok, with_term)
+            if hi is None:
+                with_hi(None, None)
+            else:
+                self.subexp(hi, env, v, tok, with_hi)
+        if lo is None:
+            with_lo(None, None)
+        else:
+            self.subexp(lo, env, v, tok, with_lo)
+
+    def ev_iter(self, ast, env, v, tok, k):
+        t = ast[1]
+        opt = len(ast) > 2 and ast[2]
+
+        def with_term(tv, ttok):
+            if not self.intact(tv, ttok):
+                raise err("Invalid path expression near attempt to iterate through %s" % trunc_dump(tv, 30))
+            kd = kind(tv)
+            if kd == "array":
+                for i, x in enumerate(list(tv)):
+                    self.path_step(float(i), x, k)
+            elif kd == "object":
+                for key in list(tv.keys()):
+                    self.path_step(key, tv[key], k)
+            elif not opt:
+                raise err("Cannot iterate over %s%s" % (kd, "" if tv is None and False else " (%s)" % trunc_dump(tv)))
+        self.ev(t, env, v, tok, with_term)
+
+    def ev_assign(self, ast, env, v, tok, k):
+        _, op, lhs, rhs = ast
+        if op == "=":
+            self.ev(("call", "_assign", (lhs, rhs)), env, v, tok, k)
+        elif op == "|=":
+            self.ev(("call", "_modify", (lhs, rhs)), env, v, tok, k)
+        else:
+            # gen_update / gen_definedor_assign:  rhs as $tmp | lhs |= (. op $tmp)   (rhs evaluated in place, once per output)
+            if op == "//=":
+                upd = ("alt", ("id",), ("var", "*tmp"))
+            else:
+                upd = ("binop", op[:-1], ("id",), ("var", "*tmp"))
+            self.ev(rhs, env, v, tok,
+                    lambda rv, rt: self.ev(("call", "_modify", (lhs, upd)), env.bind_var("*tmp", rv, rt), v, tok, k))
+
+    # functions ----------------------------------------------------------------------------------------
+    def ev_def(self, ast, env, v, tok, k):
+        _, name, params, body, rest = ast
+        clo = Closure(name, params, body, None)
+        env2 = env.bind_func((name, len(params)), clo)
+        clo.env = env2
+        self.ev(rest, env2, v, tok, k)
+
+    def ev_call(self, ast, env, v, tok, k):
+        name, args = ast[1], ast[2]
+        key = (name, len(args))
+        target = env.func(key)
+        if target is None and self.builtin_env is not None and env is not self.builtin_env:
+            target = self.builtin_env.func(key)
+        if isinstance(target, ParamClosure):
+            self.ev(target.ast, target.env, v, tok, k)
+            return
+        if isinstance(target, Closure):
+            self.call_closure(target, args, env, v, tok, k)
+            return
+        special = getattr(self, "sp_" + name + "_" + str(len(args)), None)
+        if special is not None:
+            special(args, env, v, tok, k)
+            return
+        nat = self.natives.get(key)
+        if nat is None:
+            raise Unsupported("function %s/%d is outside the fragment" % key)
+        # C function: arguments are sub-expressions, LAST argument is the outermost loop
+        vals = [None] * len(args)
+
+        def go(i):
+            if i < 0:
+                k(nat(v, *vals), None)
+                return
+
+            def kk(o, _):
+                vals[i] = o
+                go(i - 1)
+            self.subexp(args[i], env, v, tok, kk)
+        go(len(args) - 1)
+
+    def call_closure(self, clo, args, env, v, tok, k):
+        cenv = clo.env
+        dollar = []
+        for (pk, pn), a in zip(clo.params, args):
+            cenv = cenv.bind_func((pn, 0), ParamClosure(a, env))
+            if pk == "$":
+                dollar.append((pn, a))
+
+        def go(i, e):
+            if i == len(dollar):
+                self.ev(clo.body, e, v, tok, k)
+                return
+            pn, a = dollar[i]
+            self.subexp(a, env, v, tok, lambda o, t: go(i + 1, e.bind_var(pn, o, t)))
+        go(0, cenv)
+
+    # special forms implemented by the VM rather than by C functions or jq definitions -------------------
+    def sp_empty_0(self, args, env, v, tok, k):
+        return
+
+    def sp_not_0(self, args, env, v, tok, k):
+        k(not truthy(v), None)
+
+    def sp_error_0(self, args, env, v, tok, k):
+        if v is None and self.c16:
+            return      # 1.6: error(null) is indistinguishable from backtracking
+        raise JqError(v)
+
+    def sp_path_1(self, args, env, v, tok, k):
+        st = self.st
+        outer = st.snap()
+        root_tok = object()
+        st.path, st.vap, st.tok, st.nest = (), v, root_tok, 0
+
+        def kp(o, t):
+            if not self.intact(o, t):
+                raise err("Invalid path expression with result %s" % trunc_dump(o, 30))
+            p = list(st.path)
+            inner = st.snap()
+            st.restore(outer)
+            try:
+                k(p, None)
+            finally:
+                st.restore(inner)
+        try:
+            self.ev(args[0], env, v, root_tok, kp)
+        finally:
+            st.restore(outer)
+
+    def sp_getpath_1(self, args, env, v, tok, k):
+        getpath = self.natives["getpath"]
+
+        def kk(p, _):
+            st = self.st
+            try:
+                r = getpath(v, p)
+            except JqError:
+                raise
+            if st.path is None or st.nest:
+                k(r, None)
+                return
+            # _jq_path_append: silently untracked if the input is not the tracked value
+            if not self.intact(v, tok):
+                k(r, None)
+                return
+            if kind(p) == "array":
+                self.path_step(list(p), r, k)
+            else:
+                self.path_step(p, r, k)
+        self.subexp(args[0], env, v, tok, kk)
+
+    def sp_range_2(self, args, env, v, tok, k):
+        # bytecoded: `$__prog.start as $s | $__prog.end as $e | RANGE` with both evaluated in place (not SUBEXP);
+        # while path tracking only literal bounds are modelled
+        if self.tracking() and not all(a[0] in ("lit", "var", "neg") for a in args):
+            raise Unsupported("range with computed bounds while path tracking")
+
+        def ks(s, _):
+            def ke(e, _t):
+                if kind(s) != "number" or kind(e) != "number":
+                    raise err("Range bounds must be numeric")
+                x = s
+                while x < e:
+                    k(x, None)
+                    x = x + 1
+            self.ev(args[1], env, v, tok, ke)
+        self.ev(args[0], env, v, tok, ks)
+
+
+class _Fresh:
+    """Token of a value that was certainly allocated by the expression itself (construction, string literal):
+    never identical to the tracked value, whatever it equals."""
+
+
+FRESH = _Fresh()
+
+
+class _NoErr:
+    def __repr__(self):
+        return "NOERR"
+
+
+NOERR = _NoErr()
+
+
+def check_output(v):
+    """Raises Unsupported if an output contains something the model cannot print (label objects)."""
+    if isinstance(v, list):
+        for x in v:
+            check_output(x)
+    elif isinstance(v, dict):
+        for x in v.values():
+            check_output(x)
+    else:
+        kind(v)
+
+
+# ===================================================================================== natives ==
+
+import base64 as _b64
+import re as _re
+
+_JSON_NUM = _re.compile(r"-?(0|[1-9][0-9]*)(\.[0-9]+)?([eE][+-]?[0-9]+)?\Z")
+_B64_OK = _re.compile(r"[A-Za-z0-9+/]*={0,2}\Z")
+
+
+def make_natives(I):
+    N = {}
+
+    # ---- jv_get ------------------------------------------------------------------------------
+    def parse_slice(t, key):
+        """-> (start, end) or None (jq: "Array/string slice indices must be integers")."""
+        if "start" not in key or "end" not in key:
+            if I.c16:
+                # 1.6 uses jv_get: a missing key reads as null (= default)
+                pass
+            else:
+                return None
+        s, e = key.get("start"), key.get("end")
+        n = len(t)
+        if s is None:
+            s = 0.0
+        if e is None:
+            e = float(n)
+        if kind(s) != "number" or kind(e) != "number":
+            return None
+        if s != s or e != e:
+            raise Unsupported("nan slice bound")
+        if not (is_int_valued(s) and is_int_valued(e)):
+            raise Unsupported("fractional slice bounds (1.6 and 1.7.1 round differently)")
+        if s < 0:
+            s += n
+        if e < 0:
+            e += n
+        if s < 0:
+            s = 0
+        if s > n:
+            s = n
+        if e > n:
+            e = n
+        if e < s:
+            e = s
+        return int(s), int(e)
+
+    SLICE_MSG = "Array/string slice indices must be integers"
+    SLICE_MSG16 = "Start and end indices of an array slice must be numbers"
+
+    def slice_msg():
+        return SLICE_MSG16 if I.c16 else SLICE_MSG
+
+    def index(t, k):
+        tk, kk = kind(t), kind(k)
+        if tk == "object" and kk == "string":
+            return t.get(k)
+        if tk == "array" and kk == "number":
+            if k != k:
+                return None
+            if not is_int_valued(k):
+                raise Unsupported("fractional array index (1.6: null, 1.7.1: truncates)")
+            i = int(k)
+            if i < 0:
+                i += len(t)
+            if 0 <= i < len(t):
+                return t[i]
+            return None
+        if tk == "array" and kk == "object":
+            se = parse_slice(t, k)
+            if se is None:
+                raise err(slice_msg())
+            return t[se[0]:se[1]]
+        if tk == "string" and kk == "object":
+            se = parse_slice(t, k)
+            if se is None:
+                raise err(slice_msg())
+            return t[se[0]:se[1]]
+        if tk == "array" and kk == "array":
+            return array_indexes(t, k)
+        if tk == "null" and kk in ("string", "number", "object"):
+            return None
+        if kk == "string":
+            raise err('Cannot index %s with string "%s"' % (tk, k))
+        raise err("Cannot index %s with %s" % (tk, kk))
+
+    def array_indexes(a, b):
+        # jv_array_indexes (1.6 and 1.7.1 share its quirks; only the plain cases are modelled)
+        if not b:
+            return None if False else []
+        res = []
+        for ai in range(len(a)):
+            ok = True
+            for bi in range(len(b)):
+                if ai + bi >= len(a) or not I.equal(a[ai + bi], b[bi]):
+                    ok = False
+                    break
+            if ok:
+                res.append(float(ai))
+        # jq's loop has a known quirk (idx reset) for partial matches; restrict to single-element needles
+        if len(b) > 1:
+            raise Unsupported("array indexes of a multi-element needle")
+        return res
+
+    N["index"] = index
+
+    # ---- jv_set / setpath / getpath / delpaths ---------------------------------------------------
+    def jv_set(t, k, v):
+        tk, kk = kind(t), kind(k)
+        if kk == "string" and tk in ("object", "null"):
+            o = dict(t) if tk == "object" else {}
+            o[k] = v
+            return o
+        if kk == "number" and tk in ("array", "null"):
+            a = list(t) if tk == "array" else []
+            if k != k:
+                if I.c16:
+                    raise Unsupported("nan index write in 1.6")
+                raise err("Cannot set array element at NaN index")
+            if not is_int_valued(k):
+                raise Unsupported("fractional array index write")
+            i = int(k)
+            if i < 0:
+                i += len(a)
+                if i < 0:
+                    raise err("Out of bounds negative array index")
+            if i > 100000:
+                raise Unsupported("huge array index")
+            while len(a) <= i:
+                a.append(None)
+            a[i] = v
+            return a
+        if kk == "object" and tk in ("array", "null"):
+            if tk == "null" and I.flag_div:
+                raise Unsupported("DIVERGENCE:slice-write-null")
+            a = list(t) if tk == "array" else []
+            if kind(v) != "array":
+                raise err("A slice of an array can only be assigned another array")
+            se = parse_slice(a, k)
+            if se is None:
+                raise err(slice_msg())
+            return a[:se[0]] + list(v) + a[se[1]:]
+        if kk == "object" and tk == "string":
+            if I.c16:
+                raise Unsupported("string slice update message in 1.6")
+            raise err("Cannot update string slices")
+        raise err("Cannot update field at object index of %s" % tk) if kk == "object" or tk in ("array", "object", "null") and False \
+            else err(_set_err(tk, kk, k))
+
+    def _set_err(tk, kk, k):
+        # jv_set's final else: "Cannot index %s with ..." does not exist there; jq says:
+        if kk == "string":
+            return 'Cannot index %s with string "%s"' % (tk, k)
+        return "Cannot update field at object index of %s" % tk if kk == "object" else "Cannot index %s with %s" % (tk, kk)
+
+    def getpath(t, p):
+        if p is None:
+            return t
+        if kind(p) != "array":
+            raise err("Path must be specified as an array")
+        cur = t
+        for key in p:
+            if cur is None and I.c16:
+                # 1.6 jv_getpath returns null as soon as the value is null
+                return None
+            cur = index(cur, key)
+        return cur
+
+    N["getpath"] = getpath
+
+    def setpath(root, p, v):
+        if kind(p) != "array":
+            raise err("Path must be specified as an array")
+        if not p:
+            return v
+        sub = index(root, p[0])
+        return jv_set(root, p[0], setpath(sub, p[1:], v))
+
+    N[("setpath", 2)] = lambda inp, p, v: setpath(inp, p, v)
+
+    def dels(t, keys):
+        tk = kind(t)
+        if tk == "null" or not keys:
+            return t
+        if tk == "array":
+            n = len(t)
+            dele = set()
+            for key in keys:
+                kk = kind(key)
+                if kk == "number":
+                    if not is_int_valued(key):
+                        raise Unsupported("fractional index deletion")
+                    i = int(key)
+                    if i < 0:
+                        i += n
+                    if 0 <= i < n:
+                        dele.add(i)
+                elif kk == "object":
+                    se = parse_slice(t, key)
+                    if se is None:
+                        raise err(slice_msg())
+                    dele.update(range(se[0], se[1]))
+                else:
+                    if I.c16:
+                        raise Unsupported("array deletion key message in 1.6")
+                    raise err("Cannot delete %s element of array" % kk)
+            return [x for i, x in enumerate(t) if i not in dele]
+        if tk == "object":
+            o = dict(t)
+            for key in keys:
+                if kind(key) != "string":
+                    if I.c16:
+                        raise Unsupported("object deletion key message in 1.6")
+                    raise err("Cannot delete %s field of object" % kind(key))
+                o.pop(key, None)
+            return o
+        raise err("Cannot delete fields from %s" % tk)
+
+    def delpaths_sorted(obj, paths, start):
+        delkeys = []
+        i = 0
+        while i < len(paths):
+            j = i
+            delkey = len(paths[i]) == start + 1
+            key = paths[i][start]
+            while j < len(paths) and len(paths[j]) > start and I.equal(key, paths[j][start]):
+                j += 1
+            if delkey:
+                delkeys.append(key)
+            else:
+                sub = index(obj, key)
+                if sub is None:
+                    pass
+                else:
+                    newsub = delpaths_sorted(sub, paths[i:j], start + 1)
+                    obj = jv_set(obj, key, newsub)
+            i = j
+        return dels(obj, delkeys)
+
+    def delpaths(obj, paths):
+        if kind(paths) != "array":
+            raise err("Paths must be specified as an array")
+        paths = I.sort(paths)
+        for p in paths:
+            if kind(p) != "array":
+                raise err("Path must be specified as an array")
+        if not paths:
+            return obj
+        if not paths[0]:
+            return None
+        return delpaths_sorted(obj, paths, 0)
+
+    N[("delpaths", 1)] = lambda inp, ps: delpaths(inp, ps)
+
+    # ---- arithmetic / comparison -------------------------------------------------------------------
+    def deep_merge(a, b):
+        o = dict(a)
+        for k2, v2 in b.items():
+            if k2 in o and kind(o[k2]) == "object" and kind(v2) == "object":
+                o[k2] = deep_merge(o[k2], v2)
+            else:
+                o[k2] = v2
+        return o
+
+    def binop(op, a, b):
+        ak, bk = kind(a), kind(b)
+        if op == "+":
+            if ak == "null":
+                return b
+            if bk == "null":
+                return a
+            if ak == bk == "number":
+                return a + b
+            if ak == bk == "string":
+                return a + b
+            if ak == bk == "array":
+                return a + b
+            if ak == bk == "object":
+                o = dict(a)
+                o.update(b)
+                return o
+            raise type_error2(a, b, "cannot be added")
+        if op == "-":
+            if ak == bk == "number":
+                return a - b
+            if ak == bk == "array":
+                return [x for x in a if not any(I.equal(x, y) for y in b)]
+            raise type_error2(a, b, "cannot be subtracted")
+        if op == "*":
+            if ak == bk == "number":
+                return a * b
+            if (ak == "string" and bk == "number") or (ak == "number" and bk == "string"):
+                s, n = (a, b) if ak == "string" else (b, a)
+                if ak == "number" and I.c16:
+                    pass
+                if n != n:
+                    raise Unsupported("string * nan")
+                if n <= 0:
+                    return None
+                if not is_int_valued(n):
+                    raise Unsupported("string repeated a fractional number of times")
+                if n * len(s) > 100000:
+                    raise Unsupported("huge string repetition")
+                return s * int(n)
+            if ak == bk == "object":
+                return deep_merge(a, b)
+            raise type_error2(a, b, "cannot be multiplied")
+        if op == "/":
+            if ak == bk == "number":
+                if b == 0:
+                    raise type_error2(a, b, "cannot be divided because the divisor is zero")
+                return a / b
+            if ak == bk == "string":
+                return split_string(a, b)
+            raise type_error2(a, b, "cannot be divided")
+        if op == "%":
+            if ak == bk == "number":
+                if a != a or b != b:
+                    raise Unsupported("nan remainder")
+                if abs(a) >= 2 ** 63 or abs(b) >= 2 ** 63:
+                    raise Unsupported("remainder of huge numbers (1.6/1.7.1 cast differently)")
+                ia, ib = int(a), int(b)     # C cast: truncation toward zero
+                if ib == 0:
+                    raise type_error2(a, b, "cannot be divided (remainder) because the divisor is zero")
+                r = abs(ia) % abs(ib)
+                # 1.7.1: ((intmax_t)a % abs(b)) with the sign of a
+                return float(-r if ia < 0 else r)
+            raise type_error2(a, b, "cannot be divided (remainder)")
+        c = I.cmp(a, b)
+        if op == "==":
+            return c == 0
+        if op == "!=":
+            return c != 0
+        if op == "<":
+            return c < 0
+        if op == "<=":
+            return c <= 0
+        if op == ">":
+            return c > 0
+        if op == ">=":
+            return c >= 0
+        raise AssertionError(op)
+
+    N["binop"] = binop
+
+    def split_string(s, sep):
+        if s == "":
+            return []
+        if sep == "":
+            return list(s)
+        return s.split(sep)
+
+    # ---- simple C functions -----------------------------------------------------------------------------
+    def f_length(v):
+        k = kind(v)
+        if k in ("array", "object", "string"):
+            return float(len(v))
+        if k == "number":
+            return abs(v)
+        if k == "null":
+            return 0.0
+        raise type_error(v, "has no length")
+
+    def f_utf8bytelength(v):
+        if kind(v) != "string":
+            raise type_error(v, "only strings have UTF-8 byte length")
+        return float(len(utf8(v)))
+
+    def f_keys(v, sort=True):
+        k = kind(v)
+        if k == "object":
+            ks = list(v.keys())
+            if sort:
+                ks.sort(key=utf8)
+            return ks
+        if k == "array":
+            return [float(i) for i in range(len(v))]
+        raise type_error(v, "has no keys")
+
+    def f_has(v, key):
+        vk, kk = kind(v), kind(key)
+        if vk == "object" and kk == "string":
+            return key in v
+        if vk == "array" and kk == "number":
+            if key != key:
+                raise Unsupported("has(nan)")
+            if not is_int_valued(key):
+                raise Unsupported("has(fractional)")
+            return 0 <= key < len(v)
+        if vk == "null":
+            return False     # f_has answers false for null whatever the key is (witnessed by jq 1.6)
+        raise err("Cannot check whether %s has a %s key" % (vk, kk))
+
+    def contains(a, b):
+        ak, bk = kind(a), kind(b)
+        if ak != bk:
+            raise type_error2(a, b, "cannot have their containment checked")
+        if ak == "object":
+            for key, bv in b.items():
+                if key not in a:
+                    return False
+                if not contains_inner(a[key], bv):
+                    return False
+            return True
+        if ak == "array":
+            return all(any(contains_inner(x, y) for x in a) for y in b)
+        if ak == "string":
+            if "\x00" in a or "\x00" in b:
+                raise Unsupported("NUL in contains")
+            return b in a
+        return I.equal(a, b)
+
+    def contains_inner(a, b):
+        # jv_contains: kinds differ -> equality test (false), no error
+        if kind(a) != kind(b):
+            return I.equal(a, b)
+        return contains(a, b)
+
+    def f_tojson(v):
+        check_output(v)
+        return dump(v)
+
+    def f_tostring(v):
+        if kind(v) == "string":
+            return v
+        return dump(v)
+
+    def literal_error(s):
+        """jv_parse diagnostics for the single-token shapes recorded in jq-error-messages.tsv."""
+        if s == "":
+            return "Expected JSON value (while parsing '')"
+        if any(ord(c) > 126 or ord(c) < 33 for c in s) or any(c in '[]{}:,"' for c in s):
+            raise Unsupported("parser diagnostic beyond a single bare token")
+        if s in ("nan", "NaN", "Infinity", "-Infinity", "infinity", "-infinity") or s.lower().startswith(("nan", "inf", "-inf", "+inf")):
+            raise Unsupported("nan/infinity literal text")
+        return "Invalid numeric literal at EOF at line 1, column %d (while parsing '%s')" % (len(s), s)
+
+    def f_tonumber(v):
+        k = kind(v)
+        if k == "number":
+            return v
+        if k != "string":
+            raise type_error(v, "cannot be parsed as a number")
+        s = v
+        core = s.strip(" \t\r\n")
+        if _JSON_NUM.match(core) and core != "":
+            if core != s:
+                raise Unsupported("tonumber with surrounding whitespace")
+            if not canonical_literal(core):
+                raise Unsupported("tonumber result keeps a non-canonical literal in 1.7.1")
+            return float(core)
+        if s in ("null", "true", "false"):
+            raise type_error(v, "cannot be parsed as a number")
+        if core != s:
+            raise Unsupported("tonumber diagnostic with whitespace")
+        # things like "01", "1.", ".5", "+1", "1e5x": jq's own strtod accepts some of them
+        if _re.match(r"[+\-.0-9]", s) and _re.match(r"[+\-.0-9eE]*\Z", s):
+            raise Unsupported("non-JSON numeric spelling")
+        raise err(literal_error(s))
+
+    def f_fromjson(v):
+        if kind(v) != "string":
+            raise type_error(v, "only strings can be parsed")
+        s = v
+        try:
+            return parse_json(s) if s.strip(" \t\r\n") == s and s != "" else _raise(Unsupported("fromjson with whitespace / empty"))
+        except Unsupported:
+            if s == "":
+                raise err(literal_error(s))
+            try:
+                json.loads(s)
+            except ValueError:
+                raise err(literal_error(s))
+            raise
+
+    def _raise(e):
+        raise e
+
+    def f_type(v):
+        return kind(v)
+
+    def f_sort(v):
+        if kind(v) != "array":
+            raise type_error(v, "cannot be sorted, as it is not an array")
+        return I.sort(v)
+
+    def keyed(v, keys, what):
+        if kind(v) == "array" and kind(keys) == "array" and len(v) == len(keys):
+            return list(zip(keys, v))
+        raise type_error2(v, keys, what)
+
+    def f_sort_by(v, keys):
+        pairs = keyed(v, keys, "cannot be sorted, as they are not both arrays")
+        return [x for _, x in I.sort(pairs, keyf=lambda p: p[0])]
+
+    def f_group_by(v, keys):
+        pairs = I.sort(keyed(v, keys, "cannot be sorted, as they are not both arrays"), keyf=lambda p: p[0])
+        groups = []
+        last = None
+        for kx, x in pairs:
+            if groups and I.equal(last, kx):
+                groups[-1].append(x)
+            else:
+                groups.append([x])
+                last = kx
+        return groups
+
+    def minmax_by(v, keys, is_min):
+        if kind(v) != "array" or kind(keys) != "array" or len(v) != len(keys):
+            raise type_error2(v, keys, "cannot be iterated over")
+        if not v:
+            return None
+        best, bestk = v[0], keys[0]
+        for x, kx in zip(v[1:], keys[1:]):
+            c = I.cmp(kx, bestk)
+            if (c < 0) == (is_min == 1) and c != 0 if is_min else c >= 0:
+                best, bestk = x, kx
+        return best
+
+    def f_min_by(v, keys):
+        # jq: include = (cmp < 0) == (is_min == 1); equal keys: for min keep first, for max take the later one
+        if kind(v) != "array" or kind(keys) != "array" or len(v) != len(keys):
+            raise type_error2(v, keys, "cannot be iterated over")
+        if not v:
+            return None
+        best, bestk = v[0], keys[0]
+        for x, kx in zip(v[1:], keys[1:]):
+            if I.cmp(kx, bestk) < 0:
+                best, bestk = x, kx
+        return best
+
+    def f_max_by(v, keys):
+        if kind(v) != "array" or kind(keys) != "array" or len(v) != len(keys):
+            raise type_error2(v, keys, "cannot be iterated over")
+        if not v:
+            return None
+        best, bestk = v[0], keys[0]
+        for x, kx in zip(v[1:], keys[1:]):
+            if not (I.cmp(kx, bestk) < 0):
+                best, bestk = x, kx
+        return best
+
+    def f_explode(v):
+        if kind(v) != "string":
+            raise err("explode input must be a string")
+        return [float(ord(c)) for c in v]
+
+    def f_implode(v):
+        if kind(v) != "array":
+            if I.c16:
+                raise Unsupported("implode of a non-array asserts in 1.6")
+            raise err("implode input must be an array")
+        out = []
+        for x in v:
+            if kind(x) != "number" or x != x:
+                if I.c16:
+                    raise Unsupported("implode of a non-number asserts in 1.6")
+                raise type_error(x, "can't be imploded, unicode codepoint needs to be numeric")
+            if not is_int_valued(x) or x < 0 or x > 0x10FFFF or 0xD800 <= x <= 0xDFFF:
+                raise Unsupported("implode of an invalid code point")
+            out.append(chr(int(x)))
+        return "".join(out)
+
+    def f_split1(v, sep):
+        if kind(v) != "string" or kind(sep) != "string":
+            raise err("split input and separator must be strings")
+        return split_string(v, sep)
+
+    def f_startswith(v, s):
+        if kind(v) != "string" or kind(s) != "string":
+            raise err("startswith() requires string inputs")
+        return v.startswith(s)
+
+    def f_endswith(v, s):
+        if kind(v) != "string" or kind(s) != "string":
+            raise err("endswith() requires string inputs")
+        return v.endswith(s)
+
+    def f_ltrimstr(v, s):
+        if kind(v) == "string" and kind(s) == "string" and v.startswith(s):
+            return v[len(s):]
+        return v
+
+    def f_rtrimstr(v, s):
+        if kind(v) == "string" and kind(s) == "string" and v.endswith(s):
+            return v[:len(v) - len(s)] if len(s) else v
+        return v
+
+    def f_strindices(v, s):
+        if kind(v) != "string" or kind(s) != "string":
+            raise Unsupported("_strindices on non-strings")
+        if s == "":
+            raise Unsupported("_strindices of the empty string")
+        if any(ord(c) > 127 for c in v):
+            raise Unsupported("_strindices byte offsets on non-ASCII text")
+        res = []
+        i = v.find(s)
+        while i >= 0:
+            res.append(float(i))
+            if I.c16:
+                i = v.find(s, i + len(s))     # 1.6 skips overlapping matches
+            else:
+                i = v.find(s, i + 1)
+        return res
+
+    N.update({
+        ("length", 0): f_length, ("utf8bytelength", 0): f_utf8bytelength,
+        ("keys", 0): lambda v: f_keys(v, True), ("keys_unsorted", 0): lambda v: f_keys(v, False),
+        ("has", 1): f_has, ("contains", 1): contains, ("tojson", 0): f_tojson, ("tostring", 0): f_tostring,
+        ("tonumber", 0): f_tonumber, ("fromjson", 0): f_fromjson, ("type", 0): f_type, ("sort", 0): f_sort,
+        ("_sort_by_impl", 1): f_sort_by, ("_group_by_impl", 1): f_group_by,
+        ("_min_by_impl", 1): f_min_by, ("_max_by_impl", 1): f_max_by,
+        ("min", 0): lambda v: f_min_by(v, v), ("max", 0): lambda v: f_max_by(v, v),
+        ("explode", 0): f_explode, ("implode", 0): f_implode, ("split", 1): f_split1,
+        ("startswith", 1): f_startswith, ("endswith", 1): f_endswith, ("ltrimstr", 1): f_ltrimstr,
+        ("rtrimstr", 1): f_rtrimstr, ("_strindices", 1): f_strindices,
+        ("infinite", 0): lambda v: math.inf, ("nan", 0): lambda v: math.nan,
+        ("null", 0): lambda v: None, ("true", 0): lambda v: True, ("false", 0): lambda v: False,
+        ("_unsupported", 1): lambda v, why: _raise(Unsupported(str(why))),
+        ("_divergence", 1): lambda v, why: _raise(Unsupported("DIVERGENCE:" + str(why))) if I.flag_div else v,
+    })
+
+    # ---- math ---------------------------------------------------------------------------------------------
+    def num(v):
+        if kind(v) != "number":
+            raise type_error(v, "number required")
+        return v
+
+    def safe(f):
+        def g(x):
+            try:
+                return float(f(x))
+            except ValueError:
+                return math.nan
+            except OverflowError:
+                return math.inf
+        return g
+
+    def c_round(x):
+        if x != x or x in (math.inf, -math.inf):
+            return x
+        return math.copysign(math.floor(abs(x) + 0.5), x)
+
+    def c_log(x):
+        if x == 0:
+            return -math.inf
+        if x < 0:
+            return math.nan
+        return math.log(x)
+
+    def c_log2(x):
+        if x == 0:
+            return -math.inf
+        if x < 0:
+            return math.nan
+        return math.log2(x)
+
+    def c_log10(x):
+        if x == 0:
+            return -math.inf
+        if x < 0:
+            return math.nan
+        return math.log10(x)
+
+    def c_exp2(x):
+        try:
+            return 2.0 ** x
+        except OverflowError:
+            return math.inf
+
+    def c_floorlike(f):
+        def g(x):
+            if x != x or x in (math.inf, -math.inf):
+                return x
+            return float(f(x))
+        return g
+
+    MATH1 = {
+        "floor": c_floorlike(math.floor), "ceil": c_floorlike(math.ceil), "round": c_round, "trunc": c_floorlike(math.trunc),
+        "sqrt": safe(math.sqrt), "fabs": lambda x: abs(x), "log": c_log, "log2": c_log2, "log10": c_log10,
+        "exp": safe(math.exp), "exp2": c_exp2,
+        "sin": safe(math.sin), "cos": safe(math.cos), "tan": safe(math.tan), "asin": safe(math.asin), "acos": safe(math.acos),
+        "atan": safe(math.atan), "sinh": safe(math.sinh), "cosh": safe(math.cosh), "tanh": safe(math.tanh),
+    }
+    for nm, fn in MATH1.items():
+        N[(nm, 0)] = (lambda fn: lambda v: fn(num(v)))(fn)
+
+    def f_pow(v, a, b):
+        a, b = num(a), num(b)
+        try:
+            return math.pow(a, b)
+        except ValueError:
+            return math.nan
+        except OverflowError:
+            return math.inf
+        except ZeroDivisionError:
+            return math.inf
+
+    N[("pow", 2)] = f_pow
+    N[("atan2", 2)] = lambda v, a, b: math.atan2(num(a), num(b))
+    def num_only(v):
+        # 1.6 answers false for non-numbers; whether 1.7.1 does is neither recorded nor documented
+        if kind(v) != "number":
+            raise Unsupported("isnan/isinfinite/isnormal of a non-number")
+        return v
+
+    N[("isinfinite", 0)] = lambda v: num_only(v) in (math.inf, -math.inf)
+    N[("isnan", 0)] = lambda v: num_only(v) != num_only(v)
+
+    def f_isnormal(v):
+        x = num_only(v)
+        return x == x and x not in (math.inf, -math.inf) and abs(x) >= 2.2250738585072014e-308
+
+    N[("isnormal", 0)] = f_isnormal
+
+    # ---- formats --------------------------------------------------------------------------------------------
+    def fmt(name, v):
+        if name == "@text":
+            return f_tostring(v)
+        if name == "@json":
+            return f_tojson(v)
+        if name in ("@csv", "@tsv"):
+            if kind(v) != "array":
+                # 1.6: "... cannot be csv-formatted, only array"; the 1.7.1 sentence is not recorded anywhere
+                raise Unsupported("@csv/@tsv of a non-array (sentence not recorded)")
+            cells = []
+            for x in v:
+                xk = kind(x)
+                if xk == "number":
+                    cells.append("" if x != x else fmt_number(x))
+                elif xk == "boolean":
+                    cells.append("true" if x else "false")
+                elif xk == "null":
+                    cells.append("")
+                elif xk == "string":
+                    if name == "@csv":
+                        cells.append('"' + x.replace('"', '""') + '"')
+                    else:
+                        cells.append(x.replace("\\", "\\\\").replace("\t", "\\t").replace("\r", "\\r").replace("\n", "\\n"))
+                else:
+                    raise type_error(x, "is not valid in a csv row")
+            return ("," if name == "@csv" else "\t").join(cells)
+        if name in ("@html", "@uri", "@base64", "@base64d") and kind(v) != "string" and I.flag_div:
+            raise Unsupported("DIVERGENCE:format-nonstring")
+        if name == "@html":
+            s = f_tostring(v)
+            return (s.replace("&", "&amp;").replace("<", "&lt;").replace(">", "&gt;").replace("'", "&#39;").replace('"', "&quot;"))
+        if name == "@uri":
+            s = f_tostring(v)
+            keep = "ABCDEFGHIJKLMNOPQRSTUVWXYZabcdefghijklmnopqrstuvwxyz0123456789-_.~"
+            if I.c16:
+                keep += "!*'()"
+            return "".join(c if c in keep else "".join("%%%02X" % b for b in utf8(c)) for c in s)
+        if name == "@sh":
+            items = v if kind(v) == "array" else [v]
+            out = []
+            for x in items:
+                xk = kind(x)
+                if xk in ("array", "object"):
+                    raise type_error(x, "can not be escaped for shell")
+                if xk == "string":
+                    out.append("'" + x.replace("'", "'\\''") + "'")
+                else:
+                    out.append(dump(x))
+            return " ".join(out)
+        if name == "@base64":
+            s = f_tostring(v)
+            return _b64.b64encode(utf8(s)).decode("ascii")
+        if name == "@base64d":
+            s = f_tostring(v)
+            if not _B64_OK.match(s):
+                raise Unsupported("@base64d of text outside the base64 alphabet")
+            core = s.rstrip("=")
+            if len(core) % 4 == 1:
+                raise Unsupported("@base64d with a trailing sextet (message differs 1.6/1.7.1)")
+            try:
+                raw = _b64.b64decode(core + "=" * (-len(core) % 4), validate=True)
+                return raw.decode("utf-8")
+            except Exception:
+                raise Unsupported("@base64d result is not valid UTF-8 / canonical base64")
+        raise Unsupported("format %s is outside the fragment" % name)
+
+    N["format"] = fmt
+    N[("format", 1)] = lambda v, name: fmt("@" + name, v) if kind(name) == "string" else _raise(Unsupported("format arg"))
+    return N
+
+
+# ============================================================================ builtins written in jq ==
+# Definitions of jq 1.7.1's src/builtin.jq for the builtins inside the fragment.  Those whose 1.6 definition
+# differs in an observable, documented way are in BUILTINS_JQ_171 / BUILTINS_JQ_16.
+
+BUILTINS_JQ = r'''
+def error(msg): msg|error;
+def map(f): [.[] | f];
+def select(f): if f then . else empty end;
+def sort_by(f): _sort_by_impl(map([f]));
+def group_by(f): _group_by_impl(map([f]));
+def unique: group_by(.) | map(.[0]);
+def unique_by(f): [group_by(f)[] | .[0]];
+def max_by(f): _max_by_impl(map([f]));
+def min_by(f): _min_by_impl(map([f]));
+def add: reduce .[] as $x (null; . + $x);
+def reverse: if type == "string" then _unsupported("reverse of a string (definition changed around 1.7, not recorded)") else [.[length - 1 - range(0;length)]] end;
+def del(f): delpaths([path(f)]);
+def _assign(paths; $value): reduce path(paths) as $p (.; setpath($p; $value));
+def map_values(f): .[] |= f;
+def recurse(f): def r: ., (f | r); r;
+def recurse(f; cond): def r: ., (f | select(cond) | r); r;
+def recurse: recurse(.[]?);
+def to_entries: [keys_unsorted[] as $k | {key: $k, value: .[$k]}];
+def with_entries(f): to_entries | map(f) | from_entries;
+def values: select(. != null);
+def nulls: select(. == null);
+def booleans: select(type == "boolean");
+def numbers: select(type == "number");
+def strings: select(type == "string");
+def arrays: select(type == "array");
+def objects: select(type == "object");
+def iterables: select(type|. == "array" or . == "object");
+def scalars: select(type|. != "array" and . != "object");
+def join($x): reduce .[] as $i (null;
+            (if .==null then "" else .+$x end) +
+            ($i | if .==null then "" elif (type=="boolean" or type=="number") then tojson else . end)
+        ) // "";
+def _flatten($x): reduce .[] as $i ([]; if $i | type == "array" and $x != 0 then . + ($i | _flatten($x - 1)) else . + [$i] end);
+def flatten($x): if ($x|type) != "number" then (_divergence("flatten-nonnumeric-depth") | _flatten($x)) elif $x < 0 then error("flatten depth must not be negative") else _flatten($x) end;
+def flatten: _flatten(1000000000);
+def range($x): range(0;$x);
+def range($from;$upto;$by):
+  if ($by|type) != "number" or ($from|type) != "number" or ($upto|type) != "number" then _unsupported("range/3 with non-numeric bounds")
+  elif $by > 0 then $from|while(. < $upto; . + $by)
+  elif $by < 0 then $from|while(. > $upto; . + $by)
+  else empty end;
+def first(f): label $__first | (f | ., break $__first);
+def first: .[0];
+def last(f): reduce f as $x (null; $x);
+def last: .[-1];
+def nth($n): .[$n];
+def nth($n; f): if $n < 0 then _unsupported("nth with a negative count (message changed after 1.6, no recorded trace)") else last(limit($n + 1; f)) end;
+def until(cond; update): def _until: if cond then . else (update | _until) end; _until;
+def while(cond; update): def _while: if cond then ., (update | _while) else empty end; _while;
+def repeat(f): def _repeat: ., (f | _repeat); _repeat;
+def in(xs): . as $x | xs | has($x);
+def inside(xs): . as $x | xs | contains($x);
+def combinations: if length == 0 then [] else .[0][] as $x | (.[1:] | combinations) as $w | [$x] + $w end;
+def combinations(n): . as $dot | [range(n)] | map($dot) | combinations;
+def transpose: if . == [] then [] else . as $in | (map(length) | max) as $max | [range(0; $max) as $j | [range(0; $in|length) as $i | $in[$i][$j] ] ] end;
+def paths: path(..)|select(length > 0);
+def paths(node_filter): . as $dollar_dot|paths|select(. as $p|$dollar_dot|getpath($p) | node_filter);
+def finites: select(isinfinite or isnan | not);
+def normals: select(isnormal);
+def tostream: path(def r: (.[]?|r), .; r) as $p | getpath($p) | reduce path(.[]?) as $q ([$p, .]; [$p+$q]);
+def fromstream(f): { x: null, e: false } as $init
+ | foreach f as $i
+     ( $init;
+       if .e then $init else . end
+       | if $i | length == 2
+         then setpath(["e"]; $i[0] | length == 0) | setpath(["x"] + $i[0]; $i[1])
+         else setpath(["e"]; $i[0] | length == 1) end;
+       if .e then .x else empty end
+     );
+def truncate_stream(stream): . as $n | null | stream | . as $input | if (.[0]|length) > $n then setpath([0];.[0][$n:]) else empty end;
+def indices($i): if type == "array" and ($i|type) == "array" then .[$i]
+  elif type == "array" then .[[$i]]
+  elif type == "string" and ($i|type) == "string" then _strindices($i)
+  else .[$i] end;
+def index($i):   indices($i) | .[0];
+def rindex($i):  indices($i) | .[-1:][0];
+def ascii_downcase: explode | map( if 65 <= . and . <= 90 then . + 32  else . end) | implode;
+def ascii_upcase: explode | map( if 97 <= . and . <= 122 then . - 32  else . end) | implode;
+def INDEX(stream; idx_expr): reduce stream as $row ({}; .[$row|idx_expr|tostring] |= $row);
+def INDEX(idx_expr): INDEX(.[]; idx_expr);
+def IN(s): any(s == .; .);
+def IN(src; s): any(src == s; .);
+def any(f): any(.[]; f);
+def any: any(.);
+def all(f): all(.[]; f);
+def all: all(.);
+def bsearch($target):
+  if length == 0 then -1
+  elif length == 1 then
+     (if $target == .[0] then 0 elif $target < .[0] then -1 else -2 end)
+  else . as $in
+    | [0, length-1, null]
+    | until( .[0] > .[1] ;
+             if .[2] != null then (.[1] = -1)
+             else
+               ( ( (.[1] + .[0]) / 2 ) | floor ) as $mid
+               | $in[$mid] as $monkey
+               | if $monkey == $target  then (.[2] = $mid)
+                 elif (.[0] == .[1])     then (.[1] = -1)
+                 elif $monkey < $target then (.[0] = ($mid + 1))
+                 else (.[1] = ($mid - 1))
+                 end
+             end )
+    | if .[2] == null then
+         if $in[ .[0] ] < $target then (-2 -.[0])
+         else (-1 -.[0])
+         end
+      else .[2]
+      end
+  end;
+'''
+
+BUILTINS_JQ_171 = r'''
+def _modify(paths; update):
+    reduce path(paths) as $p ([., []];
+        . as $x
+        | label $out
+        | (setpath([0] + $p; $x[0] | getpath($p) | update) | ., break $out),
+          setpath([1, ($x[1] | length)]; $p))
+    | . as $x | $x[0] | delpaths($x[1]);
+def limit($n; f): if $n > 0 then label $out | foreach f as $item (0; .+1; $item, if . >= $n then break $out else empty end)
+                  elif $n == 0 then empty else f end;
+def isempty(g): label $go | (g|false, break $go), true;
+def any(generator; condition): isempty(first(generator|condition or empty)) | not;
+def all(generator; condition): isempty(first(generator|condition and empty));
+def from_entries: reduce .[] as $x ({};
+    . + { ($x | if type == "object" then (.key // .Key // .name // .Name) else .key end):
+          ($x | if has("value") then .value else .Value end) });
+def walk(f): def w: if type == "object" then map_values(w) elif type == "array" then map(w) else . end | f; w;
+'''
+
+BUILTINS_JQ_16 = r'''
+def _modify(paths; update): reduce path(paths) as $p (.; label $out | (setpath($p; getpath($p) | update) | ., break $out), delpaths([$p]));
+def limit($n; f): if $n < 0 then f else label $out | foreach f as $item (0; .+1; $item, if . >= $n then break $out else empty end) end;
+def isempty(g): 0 == ((label $go | g | (1, break $go)) // 0);
+def any(generator; condition): [label $out | foreach (generator|condition) as $cond (false; if . then break $out elif $cond then true else . end; if . then . else empty end)] | length == 1;
+def all(generator; condition): [label $out | foreach (generator|condition) as $cond (true; if .|not then break $out elif $cond then . else false end; if .|not then . else empty end)] | length == 0;
+def from_entries: map({(.key // .k // .name // .Name // .K // .Key): (if has("value") then .value else .Value end)}) | add + {} // {};
+def walk(f): . as $in | if type == "object" then reduce keys_unsorted[] as $key ( {}; . + { ($key):  ($in[$key] | walk(f)) } ) | f elif type == "array" then map( walk(f) ) | f else f end;
+'''
+
+
+# ===================================================================================== CLI model ==
+
+_INTERPS = {}
+
+
+def interp(compat16=False):
+    if compat16 not in _INTERPS:
+        _INTERPS[compat16] = Interp(compat16)
+    return _INTERPS[compat16]
+
+
+_AST_CACHE = {}
+
+
+def parse_cached(prog):
+    r = _AST_CACHE.get(prog)
+    if r is None:
+        try:
+            r = ("ok", parse(prog))
+        except Unsupported as e:
+            r = ("unsupported", str(e))
+        except ParseError as e:
+            r = ("parse-error", str(e))
+        except RecursionError:
+            r = ("unsupported", "program too deep")
+        _AST_CACHE[prog] = r
+    return r
+
+
+def evaluate(prog, inp_value, compat16=False, named=None, flag_div=True):
+    """-> (outputs, error value | NOERR).  Raises Unsupported when outside the fragment."""
+    st, ast = parse_cached(prog)
+    if st == "unsupported":
+        raise Unsupported(ast)
+    if st == "parse-error":
+        raise Unsupported("model parser: " + ast)
+    it = interp(compat16)
+    it.flag_div = flag_div
+    try:
+        return it.run(ast, inp_value, named)
+    except ParseError as e:
+        raise Unsupported("model: " + str(e))
+
+
+def run_cli(prog, args, stdin_text, compat16=False, flag_div=True):
+    """Model of `jq ARGS PROG` reading ONE JSON document from stdin.
+    -> (stdout str, exit status int, stderr str).  Raises Unsupported outside the fragment."""
+    compact = raw = null_input = sort_keys = ascii_out = exit_status = False
+    named = {}
+    i = 0
+    args = list(args)
+    while i < len(args):
+        a = args[i]
+        if a == "-c":
+            compact = True
+        elif a == "-r":
+            raw = True
+        elif a == "-n":
+            null_input = True
+        elif a == "-S":
+            sort_keys = True
+        elif a == "-a":
+            ascii_out = True
+        elif a == "-e":
+            exit_status = True
+        elif a == "--arg":
+            named[args[i + 1]] = args[i + 2]
+            i += 2
+        elif a == "--argjson":
+            named[args[i + 1]] = parse_json(args[i + 2])
+            i += 2
+        else:
+            raise Unsupported("CLI option %s" % a)
+        i += 1
+    if null_input:
+        inp = None
+        where = "<unknown>"
+    else:
+        text = stdin_text
+        body = text.rstrip("\n")
+        if "\n" in body or len(text) - len(body) > 1:
+            raise Unsupported("multi-line input (error location not modelled)")
+        inp = parse_json(body)
+        where = "<stdin>:%d" % (len(text) - len(body))
+    outs, e = evaluate(prog, inp, compat16, named, flag_div)
+    lines = []
+    for o in outs:
+        if raw and kind(o) == "string":
+            lines.append(o)
+        else:
+            lines.append(dump(o, sort_keys, ascii_out, None if compact else 2))
+    stdout = "".join(l + "\n" for l in lines)
+    if e is NOERR:
+        status = 0
+        if exit_status:
+            status = 0 if (outs and truthy(outs[-1])) else (1 if outs else 4)
+        return stdout, status, ""
+    if isinstance(e, LabelObj):
+        raise Unsupported("uncaught break")
+    if kind(e) == "string":
+        if "\x00" in e:
+            raise Unsupported("NUL in error message")
+        stderr = "jq: error (at %s): %s\n" % (where, e)
+    else:
+        check_output(e)
+        stderr = "jq: error (at %s) (not a string): %s\n" % (where, dump(e))
+    return stdout, 5, stderr
